@@ -40,8 +40,9 @@ def cases(draw):
         more.append({"mode": draw(st.sampled_from(["grow", "alter", "alter", "fresh"])), "idx": draw(st.integers(0, 9)),
                      "row": draw(row), "history": draw(st.lists(row, min_size=0, max_size=10)),
                      "script": draw(st.lists(row, min_size=b * (p + 1), max_size=b * (p + 1)))})
+    # the search space passed along (the scripted generator ignores it): its size may be smaller than the history
     return {"d": d, "history": hist, "batch": b, "passes": p, "script": script, "step": step, "offset": off, "negzero": negz,
-            "more": more}
+            "more": more, "grid_points": draw(st.sampled_from([11, 11, 2, 3, 1001]))}
 
 
 def _model(hist, script, b, p):
@@ -104,14 +105,16 @@ def check_dedup(ctx: Ctx, case):
             self.pos += batch_size
             return out
 
-    space = SearchSpace([[0.0] * d, [10.0] * d], [1.0] * d, verbose=False)   # not used by the scripted sampler
+    gp = case.get("grid_points", 11)
+    space = SearchSpace([[0.0] * d, [float(gp - 1)] * d], [1.0] * d, verbose=False)   # not used by the scripted sampler
     existing = np.array(hist, dtype=float).reshape(len(hist), d)
     e0 = existing.copy()
     losses = np.arange(len(hist), dtype=float)
     sizes, model_out, flagged, first = _model(hist, script, b, p)
     cnt0 = Counter(hist) + Counter(first)
     first_has_repeat = any(cnt0[r] > 1 for r in first)
-    classes = [f"P={p}" if p == 0 else "P>0", f"step={step:g}"] + (["negative-zero"] if case.get("negzero") else [])
+    classes = [f"P={p}" if p == 0 else "P>0", f"step={step:g}"] + (["negative-zero"] if case.get("negzero") else []) + \
+        (["history>=space_size"] if len(hist) >= gp ** d else [])
     if any(Counter(first)[r] > 1 for r in first):
         classes.append("in-batch-repeat")
     if any(r in set(hist) for r in first):
